@@ -6,6 +6,7 @@ contains ONLY the property's text and one-line descriptions of the changes earli
 usage: gen_mutant_prompts.py <dir> <round-ordinal-word>"""
 import json, glob, os, subprocess, sys
 base, ordinal = sys.argv[1], sys.argv[2]
+extra = sys.argv[3] if len(sys.argv) > 3 else ""
 os.makedirs(base, exist_ok=True)
 props = {}
 for l in open('/verif/properties.jsonl'):
@@ -26,7 +27,7 @@ Task: produce TWO different, independent source changes (mutant A and mutant B) 
  1. still compiles (default features AND `--all-features`),
  2. still passes the complete existing test suite: `cargo nextest run --workspace --no-fail-fast --offline` (default features, 198 tests) AND `cargo nextest run --workspace --no-fail-fast --all-features --offline` (260 tests),
  3. genuinely violates the property above — for some input / history / message tree / failure point / configuration the observable behaviour contradicts the statement (do not stretch the statement: an honest reader must agree the statement is violated),
- 4. needs something SPECIFIC and RARE to manifest. This is the {ordinal} round: the obvious code sites have been used. Look for: source files and functions the earlier changes did not touch (read the whole crate: app.rs, executor.rs, wasm.rs, bank.rs, staking.rs, transactions.rs, prefixed_storage/*, contracts.rs, module.rs, stargate.rs, custom_handler.rs, addresses.rs, checksums.rs, api.rs, app_builder.rs, featured.rs, test_helpers); realistic maintenance mistakes (a refactoring that changes an evaluation order, a "performance optimisation" with a stale cache, a copy-paste slip between two similar arms, a wrong default, an off-by-one at an exact boundary, a mistaken early return, a condition that is right for the common enum variant and wrong for a rare one); interactions of TWO or THREE features; effects that appear only on the SECOND or THIRD occurrence of something; wrong behaviour that depends on particular VALUES (lengths, byte values such as 0x00/0xFF, the number 0 or 1 or u64::MAX or u128 boundaries, equal addresses, sender == recipient, contract == admin, identical consecutive items, empty strings/vectors, upper-case vs lower-case) or on a particular NUMBER of things (more than N contracts, accounts, validators, pending entries, nesting levels). Do NOT produce a change that ordinary use would expose at once, nor one that only alters error texts, gas, or things the statement does not talk about.
+ 4. needs something SPECIFIC and RARE to manifest. This is the {ordinal} round: the obvious code sites have been used. Look for: source files and functions the earlier changes did not touch (read the whole crate: app.rs, executor.rs, wasm.rs, bank.rs, staking.rs, transactions.rs, prefixed_storage/*, contracts.rs, module.rs, stargate.rs, custom_handler.rs, addresses.rs, checksums.rs, api.rs, app_builder.rs, featured.rs, test_helpers); realistic maintenance mistakes (a refactoring that changes an evaluation order, a "performance optimisation" with a stale cache, a copy-paste slip between two similar arms, a wrong default, an off-by-one at an exact boundary, a mistaken early return, a condition that is right for the common enum variant and wrong for a rare one); interactions of TWO or THREE features; effects that appear only on the SECOND or THIRD occurrence of something; wrong behaviour that depends on particular VALUES (lengths, byte values such as 0x00/0xFF, the number 0 or 1 or u64::MAX or u128 boundaries, equal addresses, sender == recipient, contract == admin, identical consecutive items, empty strings/vectors, upper-case vs lower-case) or on a particular NUMBER of things (more than N contracts, accounts, validators, pending entries, nesting levels). Do NOT produce a change that ordinary use would expose at once, nor one that only alters error texts, gas, or things the statement does not talk about.{extra}
 
 Earlier rounds already produced the following changes for this property; yours must be DIFFERENT from all of them — different clause, different code site, or a different kind of trigger:
 {done}
@@ -51,5 +52,5 @@ for pid in sorted(props):
     p = props[pid]
     prop = f"{p['id']} — {p['title']}\n\nStatement: {p['statement']}\n\nQuantified over: {p['quantifier']['text']}\n"
     d = "\n".join(" - " + x for x in done.get(pid, [])) + "\n"
-    open(f'{base}/{pid}.prompt.txt', 'w').write(T.format(wt=wt, out=out, prop=prop, done=d, ordinal=ordinal))
+    open(f'{base}/{pid}.prompt.txt', 'w').write(T.format(wt=wt, out=out, prop=prop, done=d, ordinal=ordinal, extra=(" " + extra if extra else "")))
 print("ok")
